@@ -143,6 +143,20 @@ func (ex *Exec) callWith(f *frame, st *State, instr ssa.Instruction, cc *ssa.Cal
 		var recvT types.Type
 		ex.applyContract(f, st, c, callee, callee.Signature, Term{}, recvT, args, cc.Args, res, hint, pos)
 		return
+	} else if c != nil {
+		// inline the body, then apply the contract's ghost instrumentation to the inlined call
+		pre := st.clone()
+		ex.inline(f, st, callee, cc, args, res, hint)
+		var results []Term
+		if res != nil {
+			if tup, ok := f.tuples[res]; ok {
+				results = tup
+			} else if v, ok := f.vals[res]; ok {
+				results = []Term{v}
+			}
+		}
+		ex.applyGhost(f, st, pre, c, callee, args, results)
+		return
 	}
 	if ex.V.isPure(name) {
 		ex.setResult(f, res, ex.freshResults(f, st, sig, hint))
@@ -797,5 +811,37 @@ func (ex *Exec) errConvention(st *State, sig *types.Signature, rs []Term) {
 		case *types.Interface:
 			ex.assume(st, implies(errNil, not(eq(rs[i], Term{"VNil", SVal}))))
 		}
+	}
+}
+
+// applyGhost: ghost instrumentation (also-modifies + ghost-ensures) of a contract, for an inlined call.
+func (ex *Exec) applyGhost(f *frame, st, pre *State, c *Contract, callee *ssa.Function, args, results []Term) {
+	envPre := ex.contractEnv(c, callee, callee.Signature, Term{}, nil, args, pre, pre)
+	for _, g := range c.AlsoMods {
+		if gv, ok := ex.V.specs.ghosts[g]; ok {
+			if sort, _, err := envPre.ghostSort(gv); err == nil {
+				ex.regComp("G:"+gv.Name, sort)
+			}
+			ex.havoc(st, "G:"+gv.Name)
+		}
+	}
+	envPost := ex.contractEnv(c, callee, callee.Signature, Term{}, nil, args, st, pre)
+	rs := callee.Signature.Results()
+	for i := 0; i < rs.Len() && i < len(results); i++ {
+		if n := rs.At(i).Name(); n != "" && n != "_" {
+			envPost.vars[n] = tv{t: results[i], typ: rs.At(i).Type()}
+		}
+		envPost.vars[fmt.Sprintf("result%d", i)] = tv{t: results[i], typ: rs.At(i).Type()}
+	}
+	if rs.Len() >= 1 && len(results) >= 1 {
+		envPost.vars["result"] = tv{t: results[0], typ: rs.At(0).Type()}
+	}
+	for _, e := range c.GhostEns {
+		v, err := envPost.trans(e.Expr)
+		if err != nil {
+			ex.note("contract clause does not attach and is not assumed: " + c.Key + ": " + e.Text)
+			continue
+		}
+		ex.assume(st, v.t)
 	}
 }
